@@ -409,9 +409,43 @@ def narrow_index_dtypes(chk, r):
     chk.count("narrow-index-dtypes")
 
 
+def dask_slices_of_one_parent(chk, r):
+    """equal-length contiguous slices of one array (they share its buffers and differ in the offset only), each wrapped in a Series with
+    the same labels and handed to Dask in one graph: each collection holds its own elements"""
+    import dask
+    import dask.dataframe as dd
+    from spatialpandas import GeoSeries
+    dask.config.set(scheduler="synchronous")
+    for kind in ("point", "line", "polygon", "multipoint"):
+        els = [e for e in geo.structured_elements(kind, r, 30, mag=30) if e is not None and geo.verts_of(kind, e)][:8]
+        if len(els) < 8:
+            continue
+        src = geo.make_array(kind, els, "float64")
+        try:
+            parts = [src[0:4], src[4:8], src[2:6]]
+            cols = [dd.from_pandas(GeoSeries(a), npartitions=1) for a in parts]
+            got = dask.compute(*cols)
+            bnds = dask.compute(*[c.bounds for c in cols])
+            cat = dd.concat(cols[:2]).compute()
+            for j, (lo, hi) in enumerate(((0, 4), (4, 8), (2, 6))):
+                chk.evaluated()
+                want = canon_el(els[lo:hi])
+                if canon_el(geo.to_elements(got[j].array)) != want or \
+                        [[fnum(x) for x in row] for row in np.asarray(bnds[j]).tolist()] != [[fnum(x) for x in row] for row in np.asarray(src.bounds)[lo:hi].tolist()]:
+                    chk.violation(f"quantities/{kind}/dask-collections-of-equal-length-slices-confused", dict(api="dd.from_pandas(GeoSeries(arr[i:j]))", kind=kind, elements=els,
+                                                                                                             slice=[lo, hi], got=canon_el(geo.to_elements(got[j].array)), expected=want)); break
+            if canon_el(geo.to_elements(cat.array)) != canon_el(els[0:8]):
+                chk.violation(f"quantities/{kind}/dask-collections-of-equal-length-slices-confused", dict(api="dd.concat of two slices", kind=kind, elements=els,
+                                                                                                         got=canon_el(geo.to_elements(cat.array)), expected=canon_el(els[0:8])))
+        except Exception as e:  # noqa: BLE001
+            chk.violation(f"quantities/{kind}/dask-slices-raise-{common.err_kind(e)}", dict(api="dd.from_pandas(GeoSeries(arr[i:j]))", kind=kind, error=repr(e)[:300]))
+    chk.count("dask-slices-of-one-parent")
+
+
 def run_cases(chk, tier):
     r = common.rng(PROP)
     narrow_index_dtypes(chk, r)
+    dask_slices_of_one_parent(chk, r)
     seqs = 14 if tier == "quick" else 150
     for kind in geo.KINDS:
         for k in range(seqs):
